@@ -597,6 +597,40 @@ def inline_fresh_helpers(tree: ast.Module, ref_mod: dict) -> None:
                     conv = _returns_to_assign(hb, st.targets)
                     if conv is not None:
                         new_stmts = pre + conv
+                    else:
+                        # "return through": `x = h(...)` directly followed by `if x is not None: return F(x)` where every return of
+                        # h is either a closing `return None` or `return r` under the condition `r is not None`: h's statements
+                        # go in place with `return F(r)` for `return r`; x must not be read afterwards
+                        nxt = blk[idx + 1] if idx + 1 < len(blk) else None
+                        tgt = st.targets[0] if len(st.targets) == 1 and isinstance(st.targets[0], ast.Name) else None
+                        if tgt is not None and isinstance(nxt, ast.If) and not nxt.orelse and _u(nxt.test) == f"{tgt.id} is not None" and len(nxt.body) == 1 \
+                                and isinstance(nxt.body[0], ast.Return) and nxt.body[0].value is not None \
+                                and isinstance(hb[-1], ast.Return) and isinstance(hb[-1].value, ast.Constant) and hb[-1].value.value is None \
+                                and not any(isinstance(x, ast.Name) and x.id == tgt.id for later in blk[idx + 2:] for x in ast.walk(later)):
+                            inner = [r for r in rets if r is not hb[-1]]
+                            ok_rt = bool(inner) and all(isinstance(r.value, ast.Name) for r in inner)
+                            if ok_rt:
+                                # each inner return must sit directly in `if r is not None:`
+                                for r in inner:
+                                    par = [x for s_ in hb for x in ast.walk(s_) if isinstance(x, ast.If) and any(y is r for y in x.body)]
+                                    if not (par and _u(par[0].test) == f"{r.value.id} is not None" and not par[0].orelse):
+                                        ok_rt = False
+                            if ok_rt:
+                                for r in inner:
+                                    newv = copy.deepcopy(nxt.body[0].value)
+                                    for parent in ast.walk(newv):
+                                        for fld, val in ast.iter_fields(parent):
+                                            if isinstance(val, ast.Name) and val.id == tgt.id:
+                                                setattr(parent, fld, ast.Name(id=r.value.id, ctx=ast.Load()))
+                                            elif isinstance(val, list):
+                                                for k_, v_ in enumerate(val):
+                                                    if isinstance(v_, ast.Name) and v_.id == tgt.id:
+                                                        val[k_] = ast.Name(id=r.value.id, ctx=ast.Load())
+                                    if isinstance(newv, ast.Name) and newv.id == tgt.id:
+                                        newv = ast.Name(id=r.value.id, ctx=ast.Load())
+                                    r.value = newv
+                                new_stmts = pre + hb[:-1]
+                                del blk[idx + 1]
                 if new_stmts is None:
                     continue
                 for s_ in new_stmts:
@@ -1176,6 +1210,51 @@ def specialise_constant_tail(fn: ast.FunctionDef, ref_fn: dict) -> None:
             lf[-1:] = new_tail
             ast.fix_missing_locations(fn)
             return specialise_constant_tail(fn, ref_fn)
+
+
+def unroll_literal_loops(fn: ast.FunctionDef, ref_fn: dict, known) -> None:
+    """`for x in (A, B): BODY` over a literal tuple/list of at most four elements, x fresh, BODY without break/continue and
+    without assignment to x: BODY[x := A]; BODY[x := B] -- when the reference has no loop over that literal.  Elements that are
+    not plain names/constants/attribute chains are evaluated once per copy instead of once up front, so they must be pure chains."""
+    ref_lines = {l.strip() for l in ref_fn.get("src", "").splitlines()}
+    from .loader import _pure_chain
+    for _owner, _fld, blk in blocks_of(fn):
+        for i, st in enumerate(blk):
+            if not (isinstance(st, ast.For) and not st.orelse and isinstance(st.target, ast.Name) and st.target.id not in known
+                    and isinstance(st.iter, (ast.Tuple, ast.List)) and 1 <= len(st.iter.elts) <= 4):
+                continue
+            if _u(st).splitlines()[0].strip() in ref_lines:
+                continue
+            if not all(isinstance(e, ast.Constant) or _pure_chain(e) for e in st.iter.elts):
+                continue
+            x = st.target.id
+            body_nodes = [n for b in st.body for n in ast.walk(b)]
+            if any(isinstance(n, (ast.Break, ast.Continue, ast.FunctionDef, ast.Lambda)) for n in body_nodes):
+                continue
+            if any(isinstance(n, ast.Name) and n.id == x and isinstance(n.ctx, (ast.Store, ast.Del)) for n in body_nodes):
+                continue
+            if any(isinstance(n, ast.Name) and n.id == x for later in blk[i + 1:] for n in ast.walk(later)):
+                continue
+            # an element must not be changed by the body before its copy runs: attribute chains are re-read per copy in both forms
+            # only if nothing in the body stores them; keep it simple and require that the body stores no attribute at all
+            if any(isinstance(n, (ast.Attribute, ast.Subscript)) and isinstance(n.ctx, (ast.Store, ast.Del)) for n in body_nodes):
+                continue
+            new = []
+            for e in st.iter.elts:
+                for b in st.body:
+                    b2 = copy.deepcopy(b)
+                    for parent in ast.walk(b2):
+                        for fld, val in ast.iter_fields(parent):
+                            if isinstance(val, ast.Name) and val.id == x and isinstance(val.ctx, ast.Load):
+                                setattr(parent, fld, copy.deepcopy(e))
+                            elif isinstance(val, list):
+                                for k, v in enumerate(val):
+                                    if isinstance(v, ast.Name) and v.id == x and isinstance(v.ctx, ast.Load):
+                                        val[k] = copy.deepcopy(e)
+                    new.append(b2)
+            blk[i:i + 1] = new
+            ast.fix_missing_locations(fn)
+            return unroll_literal_loops(fn, ref_fn, known)
 
 
 def thread_none_flag(fn: ast.FunctionDef, known) -> None:
